@@ -795,5 +795,5 @@ func runTrees(t *testing.T) {
 	})
 }
 
-const quickTrees = 1600
+const quickTrees = 1200
 const thoroughTrees = 60000
